@@ -222,6 +222,13 @@ class CoreEnforcer:
                         assertion.cond_rm = default_role_manager.ConditionalDomainManager(10)
                         self.cond_rm_map[ptype] = assertion.cond_rm
 
+    def _build_incremental_role_links(self, op, ptype, rules):
+        """applies added / removed grouping rules to the role manager and the conditional role manager of ptype."""
+        if ptype in self.rm_map:
+            self.model.build_incremental_role_links(self.rm_map[ptype], op, "g", ptype, rules)
+        if ptype in self.cond_rm_map:
+            self.model.build_incremental_conditional_role_links(self.cond_rm_map[ptype], op, "g", ptype, rules)
+
     def load_policy(self):
         """reloads the policy from file/database."""
         need_to_rebuild = False
